@@ -36,12 +36,17 @@ def run(ctx):
 def _direct(ctx, current, mon):
     import cij.core.phonon_contribution.nonshear as ns
     ncases = ctx.pick(60, 15000)
+    prev = None
     for i in range(ncases):
         case_id = f"case{i}"
         if not ctx.mine(i, case_id):
             continue
         current["id"] = case_id
-        rng, hostile, spec, t, v, strains, fill, calc = gen_case(ctx, i)
+        reuse = prev if (prev is not None and (i // ctx.nshards) % 3 == 1) else None      # new spectrum on the grid of the case before
+        rng, hostile, spec, t, v, strains, fill, calc = gen_case(ctx, i, reuse=reuse)
+        if reuse is not None:
+            hostile = (hostile or "generic") + "+grid-of-previous-case"
+        prev = (spec.v0, t, v)
         # heat capacity: positive fields over many decades; one class with a non-positive patch (not judged there)
         cvk = i % 4
         cv = calc.qha_calculator.volume_base.heat_capacity
